@@ -159,8 +159,15 @@ def option_record(draw, name, mode):
         if mode == "c10":
             value = draw(list_lines(typ, 0, 3)) or None
         else:
-            value = draw(st.one_of(st.none(), list_lines(typ, 1, 1), list_lines(typ, 2, 4)))
-            default = draw(st.one_of(st.none(), list_lines(typ, 1, 1), list_lines(typ, 2, 3)))
+            state = draw(st.sampled_from(["unset", "unset+d1", "unset+dmany", "one", "many", "one+d1", "many+dmany"]))
+            if state.startswith("one"):
+                value = draw(list_lines(typ, 1, 1))
+            elif state.startswith("many"):
+                value = draw(list_lines(typ, 2, 4))
+            if state.endswith("d1"):
+                default = draw(list_lines(typ, 1, 1))
+            elif state.endswith("dmany"):
+                default = draw(list_lines(typ, 2, 3))
     elif typ == "PortLines":
         if mode == "c10":
             k = draw(st.integers(0, 3))
@@ -171,9 +178,17 @@ def option_record(draw, name, mode):
             else:
                 alt = draw(list_lines(typ, 1, 1))
         else:
-            value = draw(st.one_of(st.none(), list_lines(typ, 1, 1), list_lines(typ, 2, 4)))
-            default = draw(st.one_of(st.none(), st.none(), list_lines(typ, 1, 1), list_lines(typ, 2, 3)))
-            if draw(st.integers(0, 3)) == 0:
+            state = draw(st.sampled_from(["unset", "unset+d1", "unset+dmany", "unset+alt", "one", "many", "many",
+                                          "one+d1", "many+dmany"]))
+            if state.startswith("one"):
+                value = draw(list_lines(typ, 1, 1))
+            elif state.startswith("many"):
+                value = draw(list_lines(typ, 2, 4))
+            if state.endswith("d1"):
+                default = draw(list_lines(typ, 1, 1))
+            elif state.endswith("dmany"):
+                default = draw(list_lines(typ, 2, 3))
+            elif state.endswith("alt"):
                 alt = draw(list_lines(typ, 1, 1))
     elif typ in ("CommaList", "RouterList"):
         value = draw(list_lines(typ, 1 if mode == "c10" else 0, 4))
